@@ -1,8 +1,9 @@
 #!/usr/bin/env python3
-"""tools/keep_batch.py <Cxx> <tag> <first-index>  — keep every confirmed seed of /tmp/mut/<tag>.summary as
+"""tools/keep_batch.py <Cxx> <tag> <first-index> [round]  — keep every confirmed seed of /tmp/mut/<tag>.summary as
 /verif/seeded/<Cxx>-m<k>/ (k counting from first-index), with the check's verdict."""
 import json, re, subprocess, sys
 prop, tag, k = sys.argv[1], sys.argv[2], int(sys.argv[3])
+rnd = sys.argv[4] if len(sys.argv) > 4 else "2"
 for line in open(f"/tmp/mut/{tag}.summary"):
     m = re.match(r"(m\d+) \| CONFIRM (\{.*\}) \| CHECK (.*)$", line.strip())
     if not m:
@@ -16,8 +17,10 @@ for line in open(f"/tmp/mut/{tag}.summary"):
         print("STALE", name); continue
     det = "yes" if "VIOLATION" in chk else "no"
     vio = re.findall(r"VIOLATION property=\S+ replay=\S+(?: no-failing-input-found)?", chk)
-    note = ("round 2; " + "; ".join(v.replace("/verif/", "") for v in vio[:3])) if vio else "round 2; not detected by the quick check as it stood: " + chk[:120]
+    note = (f"round {rnd}; " + "; ".join(v.replace("/verif/", "") for v in vio[:3])) if vio else f"round {rnd}; not detected by the quick check as it stood: " + chk[:120]
     sid = f"{prop}-m{k}"
     subprocess.run(["python3", "/verif/tools/keep_seed.py", f"/tmp/mut/{tag}_out/{name}", sid, prop, det, note, conf], check=True)
+    mp = f"/verif/seeded/{sid}/meta.json"
+    mm = json.load(open(mp)); mm["round"] = int(rnd); json.dump(mm, open(mp, "w"), indent=1)
     print(sid, det, name)
     k += 1
